@@ -51,6 +51,10 @@ def configs(tier):
     for role in ("server", "client"):
         out.append({"role": role, "failByDrop": False, "echo": False, "cht": 1, "sdt": 1,
                     "start": "open", "stream": True})
+    # automatic pings switched on
+    for role in ("server", "client"):
+        out.append({"role": role, "failByDrop": False, "echo": False, "cht": 1, "sdt": 1,
+                    "start": "open", "ping": True})
     # options declared per connection (protocol class), the factory's differ
     for role in ("server", "client"):
         out.append({"role": role, "failByDrop": False, "echo": False, "cht": 1, "sdt": 1,
@@ -84,6 +88,8 @@ def main(ctx):
                 (6 if c["start"] == "open" else 5)
             if fw == "aio":
                 depth = depth - 1 if tier != "thorough" else depth
+            if c.get("ping") and tier != "thorough":
+                depth -= 1          # (larger event menu: keep the quick tier's longest job in bounds)
             jobs.append({"cfg": c, "depth": depth, "fw": fw, "tier": tier})
         # biggest first for better packing
         jobs.sort(key=lambda j: -j["depth"])
@@ -105,7 +111,7 @@ def main(ctx):
               "reached:sendclose_while_closing", "reached:connecting_lost",
               "reached:deferred_onconnect_resolved_late", "reached:queued_write",
               "reached:frames_behind_peer_close", "reached:prepared_message", "reached:streaming_api",
-              "reached:stream_ended_while_not_open", "reached:refused_handshake", "local_close_code_cases", "reason_cases", "code_cases", "code_echoed", "code_rejected",
+              "reached:stream_ended_while_not_open", "reached:refused_handshake", "reached:auto_ping_answered", "local_close_code_cases", "reason_cases", "code_cases", "code_echoed", "code_rejected",
               "close_inside_open_text_message"):
         ctx.require(n)
 
@@ -124,6 +130,11 @@ class Sys:
                 "closeHandshakeTimeout": cfg["cht"], "openHandshakeTimeout": 5}
         if role == "client":
             opts["serverConnectionDropTimeout"] = cfg["sdt"]
+        if cfg.get("ping"):
+            # automatic pings (interval 1 s, pong expected within 1 s): one more timer family racing
+            # with the close events, and a peer that answers the outstanding ping
+            opts["autoPingInterval"] = 1
+            opts["autoPingTimeout"] = 1
         self.connect_future = None   # server: onConnect answers asynchronously (cfg "dconn")
         self.connect_resolved = False
         hooks = None
@@ -158,6 +169,7 @@ class Sys:
         self.hs_done_len = 0
         self.hs_fed = False
         self.hs_refused = False
+        self.pongs_fed = 0
         self.deferred = False        # aio: octets queued, not yet processed
         self.notes = set()
         if cfg["start"] == "open":
@@ -216,6 +228,8 @@ class Sys:
             elif self.hs_done_len:
                 ev += ["peer:close1000", "peer:closeEmpty", "peer:close1005", "peer:closeBadUtf8",
                        "peer:close1octet", "peer:text", "peer:ping", "peer:op3", "peer:closeThenMore"]
+                if self.cfg.get("ping") and self._outstanding_ping() is not None:
+                    ev.append("peer:pong")
                 from mc import worker
                 if worker.ENV.get("fw") == "aio" and not self.deferred:
                     ev += ["peerq:close1000", "peerq:text"]
@@ -254,7 +268,16 @@ class Sys:
             return F.encode(9, b"pg", mask=m), None
         if name == "op3":
             return F.encode(3, b"x", mask=m), None
+        if name == "pong":
+            return F.encode(10, self._outstanding_ping() or b"", mask=m), None
         raise ValueError(name)
+
+    def _outstanding_ping(self):
+        """payload of the last ping this endpoint wrote that the peer has not answered yet"""
+        pings = [f.payload for f in self.wire() if f.opcode == 9 and f.payload != b"lp"]
+        if len(pings) > self.pongs_fed:
+            return pings[-1]
+        return None
 
     def step(self, ev):
         p = self.proto
@@ -341,6 +364,9 @@ class Sys:
                     self.notes.add("data_after_our_close")
                 if name == "closeThenMore":
                     self.notes.add("frames_behind_peer_close")
+                if name == "pong":
+                    self.pongs_fed = sum(1 for f in self.wire() if f.opcode == 9 and f.payload != b"lp")
+                    self.notes.add("auto_ping_answered")
                 if name in ("text", "closeThenMore"):
                     self.fed_texts.append(b"hi" if name == "text" else b"late")
                 if name.startswith("close"):
@@ -462,7 +488,7 @@ class Sys:
               "proto_transport_none": getattr(p, "transport", 1) is None}
         return {"attrs": attrs, "tr": tr, "timers": self.conn.pending_timers(),
                 "frac": round(self.conn.now() % 1.0, 3), "log": self.log_abstraction(),
-                "deferred": self.deferred, "hs": self.hs_done_len > 0, "hs_refused": self.hs_refused,
+                "deferred": self.deferred, "hs": self.hs_done_len > 0, "hs_refused": self.hs_refused, "pongs_fed": self.pongs_fed,
                 "dconn": (self.connect_future is not None, self.connect_resolved),
                 "escapes": len(self.conn.escapes), "api_errors": len(self.api_errors)}
 
